@@ -178,3 +178,70 @@ def cond_text(w):
         elif isinstance(v, tuple) and v and v[0] == 'ctor':
             out.append('%s is %s' % (show(k), v[2]))
     return '; '.join(out)
+
+
+def position_counter(idx, item, ups=None):
+    """Recognise "idx is the position of item in a walk over S, counted from k": returns (S, k) or None.
+    Forms: a counter local (loopvar from k, +1 per iteration; `ups` = loop_update effects by name),
+    zip with an unbounded range in either order, enumerate()."""
+    from heval import lit
+    def rng_start(t):
+        if isinstance(t, tuple) and t and t[0] == 'ctor' and t[2] == 'RangeFrom':
+            for k, v in t[3]:
+                if k == 'start':
+                    return v
+        return None
+    # zip forms
+    if isinstance(idx, tuple) and idx[0] == 'field' and isinstance(idx[1], tuple) and idx[1][0] == 'elem':
+        z = idx[1][1]
+        if isinstance(z, tuple) and z[0] == 'call' and z[1].split('::')[-1] == 'zip' and len(z[2]) == 2:
+            a, b = z[2]
+            which = idx[2]
+            other = '1' if which == '0' else '0'
+            rng, coll = (a, b) if which == '0' else (b, a)
+            k = rng_start(rng)
+            if k is not None and item == ('field', idx[1], other):
+                return coll, k
+        return None
+    # enumerate
+    if isinstance(idx, tuple) and idx[0] == 'call' and idx[1] == 'enumerate_index' and isinstance(item, tuple) and item[0] == 'elem':
+        return idx[2][0], lit(0, 'usize')
+    # counter local
+    if isinstance(idx, tuple) and idx[0] == 'call' and idx[1] == 'loopvar' and isinstance(item, tuple) and item[0] == 'elem' \
+            and item[1] == idx[2][0]:
+        name = idx[2][2][1]
+        up = (ups or {}).get(name)
+        if up is not None and up['args'][1][0] == 'bin' and up['args'][1][1] == 'Add' and up['args'][1][2] == idx \
+                and up['args'][1][3][0] == 'lit' and up['args'][1][3][1] == 1:
+            return idx[2][0], idx[2][1]
+    return None
+
+
+def emit_self(F, map_value=None):
+    """a symbolic `Emit` visitor (function-body encoder) whose fields are recognised by their types, not their names"""
+    from heval import ctor, sym, NONE
+    path = [k for k in F.adts if k.endswith('local_function::emit::Emit')]
+    if not path:
+        raise KeyError('struct Emit of the function-body encoder not found')
+    a = F.adts[path[0]]
+    fields = []
+    unknown = []
+    for f in a['variants'][0]['fields']:
+        ty = f['ty']
+        if 'IdsToIndices' in ty:
+            v = sym('eindices')
+        elif 'HashMap<id_arena::Id<ir::Local>' in ty:
+            v = sym('local_indices')
+        elif ty.endswith('Vec<id_arena::Id<ir::InstrSeq>>'):
+            v = sym('blocks')
+        elif ty.endswith('Vec<ir::BlockKind>'):
+            v = sym('block_kinds')
+        elif 'wasm_encoder::Function' in ty:
+            v = sym('encoder')
+        elif ty.startswith('std::option::Option<') and 'InstrLocId' in ty:
+            v = map_value if map_value is not None else NONE
+        else:
+            unknown.append(f['name'])
+            v = sym(f['name'])
+        fields.append((f['name'], v))
+    return path[0], ctor(path[0], a['variants'][0]['name'], fields), unknown
